@@ -382,6 +382,55 @@ pub fn gen(out: &mut dyn Write, which: &str, seed: u64, thorough: bool) {
             hist.insert("long_singular_jump_patterns_tried".into(), tried);
             hist.insert("long_singular_jump_patterns_found".into(), found);
         }
+        // patterns within the radius whose first z syndromes vanish: z + 1 errors at arbitrary positions of one
+        // block with values proportional to 1 / (X_i * prod_{l != i} (X_i + X_l)) (X_i the locator), so that
+        // sum e_i X_i^j = 0 for j = 1..z. The locator search then starts behind z leading zero syndromes and its
+        // initial solve H_v w = h_v has v = z + 1 unknowns (random values give this with probability 2^-8z).
+        {
+            let mut n_lz = 0usize;
+            for &si in &[0usize, 1, 2, 3, 5, 8, 9, 12, 15, 20, 23, 24, 30, 38, 40, 47] {
+                let g = geom(si);
+                let t = g.k / 2;
+                for z in 1..t {
+                    for rep in 0..(if thorough { 6 } else { 2 }) {
+                        let b = rng.below(g.blocks);
+                        let idx = block_indices(&g, b);
+                        let n = idx.len();
+                        let w = z + 1;
+                        if w > n { continue; }
+                        let mut used = std::collections::BTreeSet::new();
+                        while used.len() < w {
+                            used.insert(rng.below(n));
+                        }
+                        let pos: Vec<usize> = used.into_iter().collect();
+                        let xs: Vec<u8> = pos.iter().map(|p| gf_pow2((n - 1 - p) % 255)).collect();
+                        let c0 = 1 + rng.below(255) as u8;
+                        let errs: Vec<(usize, u8)> = (0..w).map(|i| {
+                            let mut d = xs[i];
+                            for l in 0..w {
+                                if l != i { d = gf_mul_t(d, xs[i] ^ xs[l]); }
+                            }
+                            (pos[i], gf_mul_t(c0, gf_inv(d)))
+                        }).collect();
+                        let syn = syndromes_of(&errs, n, g.k);
+                        if !(syn[..z].iter().all(|s| *s == 0) && syn[z] != 0) {
+                            *hist.entry("leading_zero_within_construction_failed".into()).or_insert(0) += 1;
+                            continue;
+                        }
+                        n_lz += 1;
+                        let full: Vec<(usize, u8)> = errs.iter().map(|(p, v)| (idx[*p], *v)).collect();
+                        if rep % 2 == 0 {
+                            let zero = vec![0u8; g.total];
+                            emit_within(out, &mut hist, si, &zero, &full, "leading_zero_syndromes");
+                        } else {
+                            let c = codeword(&mut rng, si, false);
+                            emit_within(out, &mut hist, si, &c, &full, "leading_zero_syndromes");
+                        }
+                    }
+                }
+            }
+            hist.insert("leading_zero_within_patterns".into(), n_lz);
+        }
         // all double errors of 10x10 (thorough) / a sample (quick)
         let g = geom(0);
         let zero = vec![0u8; g.total];
